@@ -179,6 +179,8 @@ pub fn exec(store: &mut GraphStore, text: &str, params: Option<&HashMap<String, 
         Ok(q) => q,
         Err(e) => return Outcome { rows: Err((ErrKind::Parse, format!("{}", e))), columns: vec![] },
     };
+    static QUIET: std::sync::Once = std::sync::Once::new();
+    QUIET.call_once(|| std::panic::set_hook(Box::new(|_| {})));
     let r = std::panic::catch_unwind(std::panic::AssertUnwindSafe(|| {
         let mut ex = MutQueryExecutor::new(store, "default".to_string());
         if let Some(p) = params {
@@ -307,4 +309,532 @@ fn parse_pv_prefix(s: &str) -> Option<(PropertyValue, &str)> {
         }
         _ => None,
     }
+}
+
+// ---------------------------------------------------------------------------------------
+// Statement AST shared by the generators: rendered as Cypher text for the engine and as the
+// driver's term syntax for the Lean model.
+// ---------------------------------------------------------------------------------------
+
+#[derive(Clone, Debug)]
+pub enum Ex {
+    Lit(PropertyValue),
+    Var(u32),
+    Prop(u32, u32),
+    Param(u32),
+    List(Vec<Ex>),
+    Map(Vec<(u32, Ex)>),
+    Un(&'static str, Box<Ex>),
+    Bin(&'static str, Box<Ex>, Box<Ex>),
+    Ite(Box<Ex>, Box<Ex>, Box<Ex>),
+    Idx(Box<Ex>, Box<Ex>),
+    Comp(u32, Box<Ex>, Box<Ex>, Box<Ex>),
+}
+
+pub fn int(i: i64) -> Ex {
+    Ex::Lit(PropertyValue::Integer(i))
+}
+pub fn bin(op: &'static str, a: Ex, b: Ex) -> Ex {
+    Ex::Bin(op, Box::new(a), Box::new(b))
+}
+
+/// a value written as a Cypher literal
+pub fn lit_cypher(v: &PropertyValue) -> String {
+    match v {
+        PropertyValue::Null => "null".into(),
+        PropertyValue::Boolean(b) => b.to_string(),
+        PropertyValue::Integer(i) => i.to_string(),
+        PropertyValue::Float(f) => format!("{:?}", f),
+        PropertyValue::String(s) => {
+            let mut o = String::from("'");
+            for c in s.chars() {
+                match c {
+                    '\'' => o.push_str("\\'"),
+                    '\\' => o.push_str("\\\\"),
+                    c => o.push(c),
+                }
+            }
+            o.push('\'');
+            o
+        }
+        PropertyValue::Array(a) => format!("[{}]", a.iter().map(lit_cypher).collect::<Vec<_>>().join(", ")),
+        PropertyValue::Map(m) => {
+            let mut es: Vec<(u64, String)> = m.iter().map(|(k, v)| (num_suffix(k, 'k'), lit_cypher(v))).collect();
+            es.sort();
+            format!("{{{}}}", es.iter().map(|(k, v)| format!("k{}: {}", k, v)).collect::<Vec<_>>().join(", "))
+        }
+        other => format!("{:?}", other),
+    }
+}
+
+fn bin_cy(op: &str) -> &'static str {
+    match op {
+        "add" => "+",
+        "sub" => "-",
+        "mul" => "*",
+        "div" => "/",
+        "mod" => "%",
+        "eq" => "=",
+        "ne" => "<>",
+        "lt" => "<",
+        "le" => "<=",
+        "gt" => ">",
+        "ge" => ">=",
+        "and" => "AND",
+        "or" => "OR",
+        _ => "?",
+    }
+}
+
+impl Ex {
+    pub fn cypher(&self) -> String {
+        match self {
+            Ex::Lit(v) => lit_cypher(v),
+            Ex::Var(x) => format!("v{}", x),
+            Ex::Prop(x, k) => format!("v{}.k{}", x, k),
+            Ex::Param(p) => format!("$p{}", p),
+            Ex::List(es) => format!("[{}]", es.iter().map(|e| e.cypher()).collect::<Vec<_>>().join(", ")),
+            Ex::Map(es) => format!("{{{}}}", es.iter().map(|(k, e)| format!("k{}: {}", k, e.cypher())).collect::<Vec<_>>().join(", ")),
+            Ex::Un(op, a) => match *op {
+                "not" => format!("NOT ({})", a.cypher()),
+                "neg" => format!("-({})", a.cypher()),
+                "isnull" => format!("({}) IS NULL", a.cypher()),
+                _ => format!("({}) IS NOT NULL", a.cypher()),
+            },
+            Ex::Bin(op, a, b) => format!("({} {} {})", a.cypher(), bin_cy(op), b.cypher()),
+            Ex::Ite(c, t, e) => format!("CASE WHEN {} THEN {} ELSE {} END", c.cypher(), t.cypher(), e.cypher()),
+            Ex::Idx(a, i) => format!("({})[{}]", a.cypher(), i.cypher()),
+            Ex::Comp(x, l, f, m) => format!("[v{} IN {} WHERE {} | {}]", x, l.cypher(), f.cypher(), m.cypher()),
+        }
+    }
+    pub fn model(&self) -> String {
+        match self {
+            Ex::Lit(v) => format!("#{}", pv_text(v)),
+            Ex::Var(x) => format!("v{}", x),
+            Ex::Prop(x, k) => format!("v{}.k{}", x, k),
+            Ex::Param(p) => format!("${}", p),
+            Ex::List(es) => format!("[{}]", es.iter().map(|e| e.model()).collect::<Vec<_>>().join(",")),
+            Ex::Map(es) => format!("{{{}}}", es.iter().map(|(k, e)| format!("k{}:{}", k, e.model())).collect::<Vec<_>>().join(",")),
+            Ex::Un(op, a) => format!("{}({})", op, a.model()),
+            Ex::Bin(op, a, b) => format!("{}({},{})", op, a.model(), b.model()),
+            Ex::Ite(c, t, e) => format!("ite({},{},{})", c.model(), t.model(), e.model()),
+            Ex::Idx(a, i) => format!("idx({},{})", a.model(), i.model()),
+            Ex::Comp(x, l, f, m) => format!("comp(v{},{},{},{})", x, l.model(), f.model(), m.model()),
+        }
+    }
+    pub fn has_param(&self) -> bool {
+        match self {
+            Ex::Param(_) => true,
+            Ex::Lit(_) | Ex::Var(_) | Ex::Prop(..) => false,
+            Ex::List(es) => es.iter().any(|e| e.has_param()),
+            Ex::Map(es) => es.iter().any(|(_, e)| e.has_param()),
+            Ex::Un(_, a) => a.has_param(),
+            Ex::Bin(_, a, b) | Ex::Idx(a, b) => a.has_param() || b.has_param(),
+            Ex::Ite(a, b, c) => a.has_param() || b.has_param() || c.has_param(),
+            Ex::Comp(_, a, b, c) => a.has_param() || b.has_param() || c.has_param(),
+        }
+    }
+    pub fn is_lit(&self) -> bool {
+        matches!(self, Ex::Lit(_))
+    }
+    /// every parameter replaced by its value written as a literal
+    pub fn inline(&self, ps: &HashMap<u32, PropertyValue>) -> Ex {
+        let b = |e: &Ex| Box::new(e.inline(ps));
+        match self {
+            Ex::Param(p) => match ps.get(p) {
+                Some(v) => Ex::Lit(v.clone()),
+                None => Ex::Param(*p),
+            },
+            Ex::Lit(_) | Ex::Var(_) | Ex::Prop(..) => self.clone(),
+            Ex::List(es) => Ex::List(es.iter().map(|e| e.inline(ps)).collect()),
+            Ex::Map(es) => Ex::Map(es.iter().map(|(k, e)| (*k, e.inline(ps))).collect()),
+            Ex::Un(op, a) => Ex::Un(op, b(a)),
+            Ex::Bin(op, a, c) => Ex::Bin(op, b(a), b(c)),
+            Ex::Ite(a, c, d) => Ex::Ite(b(a), b(c), b(d)),
+            Ex::Idx(a, c) => Ex::Idx(b(a), b(c)),
+            Ex::Comp(x, a, c, d) => Ex::Comp(*x, b(a), b(c), b(d)),
+        }
+    }
+}
+
+#[derive(Clone, Debug)]
+pub struct NPat {
+    pub var: Option<u32>,
+    pub labels: Vec<u32>,
+    pub props: Vec<(u32, Ex)>,
+}
+
+#[derive(Clone, Debug)]
+pub struct CPath {
+    pub a: NPat,
+    /// (type, properties, outgoing?, other end)
+    pub seg: Option<(u32, Vec<(u32, Ex)>, bool, NPat)>,
+}
+
+#[derive(Clone, Debug)]
+pub enum SetItem {
+    Prop(u32, u32, Ex),
+    All(u32, Ex),
+    MAdd(u32, Ex),
+    Label(u32, u32),
+}
+
+#[derive(Clone, Debug)]
+pub enum RemItem {
+    Prop(u32, u32),
+    Label(u32, u32),
+}
+
+#[derive(Clone, Debug)]
+pub enum Cl {
+    Unwind(Ex, u32),
+    MatchN(u32, Vec<u32>, Vec<(u32, Ex)>),
+    MatchR(u32, Vec<u32>, u32, u32, u32, Vec<u32>),
+    Filter(Ex),
+    With(Vec<u32>, Vec<(u32, Ex)>),
+    Create(Vec<CPath>),
+    Merge(NPat, Vec<SetItem>, Vec<SetItem>),
+    Set(Vec<SetItem>),
+    Remove(Vec<RemItem>),
+    Delete(bool, Vec<u32>),
+}
+
+#[derive(Clone, Debug)]
+pub struct St {
+    pub cls: Vec<Cl>,
+    pub ret: Option<Vec<Ex>>,
+}
+
+fn props_cy(ps: &[(u32, Ex)]) -> String {
+    if ps.is_empty() {
+        String::new()
+    } else {
+        format!(" {{{}}}", ps.iter().map(|(k, e)| format!("k{}: {}", k, e.cypher())).collect::<Vec<_>>().join(", "))
+    }
+}
+fn props_m(ps: &[(u32, Ex)]) -> String {
+    format!("{{{}}}", ps.iter().map(|(k, e)| format!("k{}:{}", k, e.model())).collect::<Vec<_>>().join(","))
+}
+fn labels_cy(ls: &[u32]) -> String {
+    ls.iter().map(|l| format!(":L{}", l)).collect()
+}
+fn labels_m(ls: &[u32]) -> String {
+    format!("[{}]", ls.iter().map(|l| l.to_string()).collect::<Vec<_>>().join(","))
+}
+
+impl NPat {
+    pub fn cypher(&self) -> String {
+        format!("({}{}{})", self.var.map(|v| format!("v{}", v)).unwrap_or_default(), labels_cy(&self.labels), props_cy(&self.props))
+    }
+    pub fn model(&self) -> String {
+        format!("({},{},{})", self.var.map(|v| format!("v{}", v)).unwrap_or("_".into()), labels_m(&self.labels), props_m(&self.props))
+    }
+}
+
+impl SetItem {
+    pub fn cypher(&self) -> String {
+        match self {
+            SetItem::Prop(x, k, e) => format!("v{}.k{} = {}", x, k, e.cypher()),
+            SetItem::All(x, e) => format!("v{} = {}", x, e.cypher()),
+            SetItem::MAdd(x, e) => format!("v{} += {}", x, e.cypher()),
+            SetItem::Label(x, l) => format!("v{}:L{}", x, l),
+        }
+    }
+    pub fn model(&self) -> String {
+        match self {
+            SetItem::Prop(x, k, e) => format!("p(v{},k{},{})", x, k, e.model()),
+            SetItem::All(x, e) => format!("a(v{},{})", x, e.model()),
+            SetItem::MAdd(x, e) => format!("m(v{},{})", x, e.model()),
+            SetItem::Label(x, l) => format!("l(v{},{})", x, l),
+        }
+    }
+}
+
+impl Cl {
+    pub fn is_write(&self) -> bool {
+        matches!(self, Cl::Create(_) | Cl::Merge(..) | Cl::Set(_) | Cl::Remove(_) | Cl::Delete(..))
+    }
+    pub fn kind(&self) -> &'static str {
+        match self {
+            Cl::Unwind(..) => "unwind",
+            Cl::MatchN(..) => "match",
+            Cl::MatchR(..) => "matchrel",
+            Cl::Filter(_) => "where",
+            Cl::With(..) => "with",
+            Cl::Create(_) => "create",
+            Cl::Merge(..) => "merge",
+            Cl::Set(_) => "set",
+            Cl::Remove(_) => "remove",
+            Cl::Delete(false, _) => "delete",
+            Cl::Delete(true, _) => "detachdelete",
+        }
+    }
+    pub fn cypher(&self) -> String {
+        match self {
+            Cl::Unwind(e, x) => format!("UNWIND {} AS v{}", e.cypher(), x),
+            Cl::MatchN(x, ls, ps) => format!("MATCH (v{}{}{})", x, labels_cy(ls), props_cy(ps)),
+            Cl::MatchR(a, la, r, ty, b, lb) => format!("MATCH (v{}{})-[v{}:T{}]->(v{}{})", a, labels_cy(la), r, ty, b, labels_cy(lb)),
+            Cl::Filter(e) => format!("WHERE {}", e.cypher()),
+            Cl::With(keep, items) => {
+                let mut parts: Vec<String> = keep.iter().map(|v| format!("v{}", v)).collect();
+                parts.extend(items.iter().map(|(x, e)| format!("{} AS v{}", e.cypher(), x)));
+                format!("WITH {}", parts.join(", "))
+            }
+            Cl::Create(paths) => format!(
+                "CREATE {}",
+                paths
+                    .iter()
+                    .map(|p| match &p.seg {
+                        None => p.a.cypher(),
+                        Some((ty, ps, true, b)) => format!("{}-[:T{}{}]->{}", p.a.cypher(), ty, props_cy(ps), b.cypher()),
+                        Some((ty, ps, false, b)) => format!("{}<-[:T{}{}]-{}", p.a.cypher(), ty, props_cy(ps), b.cypher()),
+                    })
+                    .collect::<Vec<_>>()
+                    .join(", ")
+            ),
+            Cl::Merge(p, oc, om) => {
+                let mut s = format!("MERGE {}", p.cypher());
+                if !oc.is_empty() {
+                    s.push_str(&format!(" ON CREATE SET {}", oc.iter().map(|i| i.cypher()).collect::<Vec<_>>().join(", ")));
+                }
+                if !om.is_empty() {
+                    s.push_str(&format!(" ON MATCH SET {}", om.iter().map(|i| i.cypher()).collect::<Vec<_>>().join(", ")));
+                }
+                s
+            }
+            Cl::Set(items) => format!("SET {}", items.iter().map(|i| i.cypher()).collect::<Vec<_>>().join(", ")),
+            Cl::Remove(items) => format!(
+                "REMOVE {}",
+                items
+                    .iter()
+                    .map(|i| match i {
+                        RemItem::Prop(x, k) => format!("v{}.k{}", x, k),
+                        RemItem::Label(x, l) => format!("v{}:L{}", x, l),
+                    })
+                    .collect::<Vec<_>>()
+                    .join(", ")
+            ),
+            Cl::Delete(d, xs) => format!("{}DELETE {}", if *d { "DETACH " } else { "" }, xs.iter().map(|x| format!("v{}", x)).collect::<Vec<_>>().join(", ")),
+        }
+    }
+    pub fn model(&self) -> String {
+        match self {
+            Cl::Unwind(e, x) => format!("U({},v{})", e.model(), x),
+            Cl::MatchN(x, ls, ps) => format!("MN(v{},{},{})", x, labels_m(ls), props_m(ps)),
+            Cl::MatchR(a, la, r, ty, b, lb) => format!("MR(v{},{},v{},{},v{},{})", a, labels_m(la), r, ty, b, labels_m(lb)),
+            Cl::Filter(e) => format!("W({})", e.model()),
+            Cl::With(keep, items) => format!(
+                "WI([{}],{{{}}})",
+                keep.iter().map(|v| format!("v{}", v)).collect::<Vec<_>>().join(","),
+                items.iter().map(|(x, e)| format!("v{}:{}", x, e.model())).collect::<Vec<_>>().join(",")
+            ),
+            Cl::Create(paths) => format!(
+                "C({})",
+                paths
+                    .iter()
+                    .map(|p| match &p.seg {
+                        None => p.a.model(),
+                        Some((ty, ps, true, b)) => format!("{}>{}{}>{}", p.a.model(), ty, props_m(ps), b.model()),
+                        Some((ty, ps, false, b)) => format!("{}<{}{}<{}", p.a.model(), ty, props_m(ps), b.model()),
+                    })
+                    .collect::<Vec<_>>()
+                    .join(",")
+            ),
+            Cl::Merge(p, oc, om) => format!(
+                "MG({},[{}],[{}])",
+                p.model(),
+                oc.iter().map(|i| i.model()).collect::<Vec<_>>().join(","),
+                om.iter().map(|i| i.model()).collect::<Vec<_>>().join(",")
+            ),
+            Cl::Set(items) => format!("S({})", items.iter().map(|i| i.model()).collect::<Vec<_>>().join(",")),
+            Cl::Remove(items) => format!(
+                "RM({})",
+                items
+                    .iter()
+                    .map(|i| match i {
+                        RemItem::Prop(x, k) => format!("p(v{},k{})", x, k),
+                        RemItem::Label(x, l) => format!("l(v{},{})", x, l),
+                    })
+                    .collect::<Vec<_>>()
+                    .join(",")
+            ),
+            Cl::Delete(d, xs) => format!("D({},{})", if *d { 1 } else { 0 }, xs.iter().map(|x| format!("v{}", x)).collect::<Vec<_>>().join(",")),
+        }
+    }
+    pub fn map_exprs(&self, f: &dyn Fn(&Ex) -> Ex) -> Cl {
+        let mp = |ps: &Vec<(u32, Ex)>| ps.iter().map(|(k, e)| (*k, f(e))).collect::<Vec<_>>();
+        let mn = |p: &NPat| NPat { var: p.var, labels: p.labels.clone(), props: mp(&p.props) };
+        let ms = |i: &SetItem| match i {
+            SetItem::Prop(x, k, e) => SetItem::Prop(*x, *k, f(e)),
+            SetItem::All(x, e) => SetItem::All(*x, f(e)),
+            SetItem::MAdd(x, e) => SetItem::MAdd(*x, f(e)),
+            SetItem::Label(x, l) => SetItem::Label(*x, *l),
+        };
+        match self {
+            Cl::Unwind(e, x) => Cl::Unwind(f(e), *x),
+            Cl::MatchN(x, ls, ps) => Cl::MatchN(*x, ls.clone(), mp(ps)),
+            Cl::Filter(e) => Cl::Filter(f(e)),
+            Cl::With(keep, items) => Cl::With(keep.clone(), mp(items)),
+            Cl::Create(paths) => Cl::Create(
+                paths
+                    .iter()
+                    .map(|p| CPath { a: mn(&p.a), seg: p.seg.as_ref().map(|(t, ps, o, b)| (*t, mp(ps), *o, mn(b))) })
+                    .collect(),
+            ),
+            Cl::Merge(p, oc, om) => Cl::Merge(mn(p), oc.iter().map(ms).collect(), om.iter().map(ms).collect()),
+            Cl::Set(items) => Cl::Set(items.iter().map(ms).collect()),
+            other => other.clone(),
+        }
+    }
+}
+
+impl St {
+    pub fn cypher(&self) -> String {
+        let mut parts: Vec<String> = self.cls.iter().map(|c| c.cypher()).collect();
+        if let Some(items) = &self.ret {
+            parts.push(format!("RETURN {}", items.iter().enumerate().map(|(i, e)| format!("{} AS c{}", e.cypher(), i)).collect::<Vec<_>>().join(", ")));
+        }
+        parts.join(" ")
+    }
+    pub fn model(&self) -> String {
+        let mut s = if self.cls.is_empty() { "-".to_string() } else { self.cls.iter().map(|c| c.model()).collect::<Vec<_>>().join(";") };
+        if let Some(items) = &self.ret {
+            s.push_str(&format!("|R({})", items.iter().map(|e| e.model()).collect::<Vec<_>>().join(",")));
+        }
+        s
+    }
+    pub fn inline(&self, ps: &HashMap<u32, PropertyValue>) -> St {
+        St { cls: self.cls.iter().map(|c| c.map_exprs(&|e| e.inline(ps))).collect(), ret: self.ret.as_ref().map(|r| r.iter().map(|e| e.inline(ps)).collect()) }
+    }
+    pub fn kinds(&self) -> String {
+        self.cls.iter().map(|c| c.kind()).collect::<Vec<_>>().join("+")
+    }
+}
+
+pub fn params_model(ps: &[(u32, PropertyValue)]) -> String {
+    if ps.is_empty() {
+        "-".into()
+    } else {
+        format!("P{{{}}}", ps.iter().map(|(k, v)| format!("{}:{}", k, pv_text(v))).collect::<Vec<_>>().join(","))
+    }
+}
+
+// ---------------------------------------------------------------------------------------
+// Dumps as structures, and the renaming certificate (implementation handle -> model handle)
+// ---------------------------------------------------------------------------------------
+
+#[derive(Clone, Debug, Default)]
+pub struct DumpG {
+    /// (id, labels text, props text)
+    pub nodes: Vec<(u64, String, String)>,
+    /// (id, src, tgt, type, props text)
+    pub rels: Vec<(u64, u64, u64, String, String)>,
+}
+
+pub fn parse_dump(s: &str) -> Option<DumpG> {
+    let (ns, rs) = s.split_once('|')?;
+    let mut g = DumpG::default();
+    if ns != "-" {
+        for n in ns.split(';') {
+            let mut it = n.splitn(3, ':');
+            g.nodes.push((it.next()?.parse().ok()?, it.next()?.to_string(), it.next()?.to_string()));
+        }
+    }
+    if rs != "-" {
+        for r in rs.split(';') {
+            let mut it = r.splitn(5, ':');
+            g.rels.push((it.next()?.parse().ok()?, it.next()?.parse().ok()?, it.next()?.parse().ok()?, it.next()?.to_string(), it.next()?.to_string()));
+        }
+    }
+    Some(g)
+}
+
+fn rel_bag(g: &DumpG, ren: &HashMap<u64, u64>) -> Vec<(u64, u64, String, String)> {
+    let mut v: Vec<_> = g
+        .rels
+        .iter()
+        .map(|(_, s, t, ty, p)| (*ren.get(s).unwrap_or(s), *ren.get(t).unwrap_or(t), ty.clone(), p.clone()))
+        .collect();
+    v.sort();
+    v
+}
+
+/// a bijection implementation-node -> model-node under which the two graphs are equal
+/// (node contents, relationship bag); identity is preferred.  None: not isomorphic.
+pub fn find_renaming(imp: &DumpG, model: &DumpG) -> Option<Vec<(u64, u64)>> {
+    if imp.nodes.len() != model.nodes.len() || imp.rels.len() != model.rels.len() {
+        return None;
+    }
+    let target = rel_bag(model, &HashMap::new());
+    fn go(
+        i: usize,
+        imp: &DumpG,
+        model: &DumpG,
+        used: &mut Vec<bool>,
+        ren: &mut HashMap<u64, u64>,
+        target: &Vec<(u64, u64, String, String)>,
+        budget: &mut u64,
+    ) -> bool {
+        if *budget == 0 {
+            return false;
+        }
+        *budget -= 1;
+        if i == imp.nodes.len() {
+            return &rel_bag(imp, ren) == target;
+        }
+        let (id, ls, ps) = &imp.nodes[i];
+        // identity first
+        let mut order: Vec<usize> = (0..model.nodes.len()).collect();
+        order.sort_by_key(|j| if model.nodes[*j].0 == *id { 0 } else { 1 });
+        for j in order {
+            if used[j] || &model.nodes[j].1 != ls || &model.nodes[j].2 != ps {
+                continue;
+            }
+            used[j] = true;
+            ren.insert(*id, model.nodes[j].0);
+            if go(i + 1, imp, model, used, ren, target, budget) {
+                return true;
+            }
+            ren.remove(id);
+            used[j] = false;
+        }
+        false
+    }
+    let mut used = vec![false; model.nodes.len()];
+    let mut ren = HashMap::new();
+    let mut budget = 200_000u64;
+    if go(0, imp, model, &mut used, &mut ren, &target, &mut budget) {
+        let mut v: Vec<(u64, u64)> = ren.into_iter().filter(|(a, b)| a != b).collect();
+        v.sort();
+        Some(v)
+    } else {
+        None
+    }
+}
+
+pub fn ren_text(ren: &[(u64, u64)]) -> String {
+    if ren.is_empty() {
+        "-".into()
+    } else {
+        ren.iter().map(|(a, b)| format!("{}>{}", a, b)).collect::<Vec<_>>().join(",")
+    }
+}
+
+/// split a driver reply `ok <rows> <graph>` / `err <kind> [<graph>]`
+pub fn split_reply(r: &str) -> (bool, String, String) {
+    let mut it = r.split(' ');
+    let head = it.next().unwrap_or("");
+    let a = it.next().unwrap_or("").to_string();
+    let b = it.next().unwrap_or("").to_string();
+    (head == "ok", a, b)
+}
+
+/// rows of a driver reply, sorted like `rows_text`
+pub fn sort_rows_text(s: &str) -> String {
+    if s == "-" {
+        return s.to_string();
+    }
+    let mut v: Vec<&str> = s.split('/').collect();
+    v.sort();
+    v.join("/")
 }
